@@ -20,6 +20,9 @@ use core::pin::Pin;
 use core::time::Duration;
 use futures_util::StreamExt;
 use futures_util::stream::FuturesUnordered;
+#[cfg(feature = "verif-hooks")]
+use super::verif_rand::random;
+#[cfg(not(feature = "verif-hooks"))]
 use rand::random;
 use tokio::io;
 use tokio::io::{AsyncRead, AsyncWrite};
